@@ -327,7 +327,10 @@ impl<'a> Interp<'a> {
                 self.struct_finish(r, fs, st, true)
             }
             Shape::Enum(_) => self.enum_from_list(r, items),
-            // a unit struct accepts the bare word only; a newtype never gets here
+            // a newtype hands everything on to its field, a list of items too (as a flatten member it is
+            // given one)
+            Shape::Newtype(Ty::Recv(inner)) | Shape::Newtype(Ty::BoxRecv(inner)) => self.recv_from_list(&self.recvs[*inner], items).map(|v| newtype_value(r, v)),
+            // a unit struct accepts the bare word only
             Shape::Unit | Shape::Newtype(_) => Err(vec![leaf(LeafKind::BadValue, Where::Nowhere, "")]),
         }
     }
@@ -626,6 +629,10 @@ impl<'a> Interp<'a> {
     fn flatten_rejects(&self, ty: &Ty, v: &Value) -> bool {
         let (Ty::Recv(id) | Ty::BoxRecv(id)) = ty else { return false };
         let r = &self.recvs[*id];
+        if let Shape::Newtype(inner) = &r.shape {
+            // a newtype around a struct receiver: the mark concerns the wrapped value
+            return v.get(r.name()).map(|x| self.flatten_rejects(inner, x)).unwrap_or(false);
+        }
         let Some(a) = anchor_field(r) else { return false };
         let f = &r.fields()[a];
         match v.get(r.name()).and_then(|o| o.get(&f.rust)) {
@@ -642,6 +649,13 @@ impl<'a> Interp<'a> {
     fn flatten_mark(&self, ty: &Ty, v: Value) -> Value {
         let (Ty::Recv(id) | Ty::BoxRecv(id)) = ty else { return v };
         let r = &self.recvs[*id];
+        if let Shape::Newtype(inner) = &r.shape {
+            let mut v = v;
+            if let Some(x) = v.get_mut(r.name()) {
+                *x = self.flatten_mark(inner, x.take());
+            }
+            return v;
+        }
         let Some(a) = anchor_field(r) else { return v };
         let f = &r.fields()[a];
         let mut v = v;
